@@ -17,19 +17,19 @@ type RunCfg struct {
 	Scenario string `json:"scenario"`
 	Seed     uint64 `json:"seed"`
 
-	SchemaVariant int    `json:"schema_variant"`
-	YieldPermil   int    `json:"yield_permil"`
-	PermuteMaps   bool   `json:"permute_maps"`
-	Stick         int    `json:"stick"`
-	MaxFragment   int    `json:"max_fragment"`
-	TapeLimit     int    `json:"tape_limit"`
+	SchemaVariant int      `json:"schema_variant"`
+	YieldPermil   int      `json:"yield_permil"`
+	PermuteMaps   bool     `json:"permute_maps"`
+	Stick         int      `json:"stick"`
+	MaxFragment   int      `json:"max_fragment"`
+	TapeLimit     int      `json:"tape_limit"`
 	Slow          []string `json:"slow,omitempty"` // goroutine classes scheduled ~30x less often
 
-	Txns      []TxnSpec   `json:"txns"`
-	Monitors  []MonSpec   `json:"monitors"`
-	Clients   []ClientSpec `json:"clients,omitempty"`
-	Faults    []FaultSpec `json:"faults,omitempty"`
-	Knobs     map[string]int `json:"knobs,omitempty"`
+	Txns     []TxnSpec      `json:"txns"`
+	Monitors []MonSpec      `json:"monitors"`
+	Clients  []ClientSpec   `json:"clients,omitempty"`
+	Faults   []FaultSpec    `json:"faults,omitempty"`
+	Knobs    map[string]int `json:"knobs,omitempty"`
 
 	// Schedule, when present, replaces the seeded tape.
 	Schedule []uint16 `json:"schedule,omitempty"`
@@ -46,33 +46,33 @@ type TxnSpec struct {
 }
 
 type MonSpec struct {
-	Owner   string              `json:"owner"`
-	Method  string              `json:"method"`
-	AfterTxn int                `json:"after_txn"` // established once this many transactions were issued
-	Tables  map[string]*MonTable `json:"tables"`
-	Concurrent bool             `json:"concurrent,omitempty"` // issue while a transaction is in flight
-	Delay      int              `json:"delay,omitempty"`      // concurrent: start the monitor this many scheduling steps after the transaction was sent
-	Burst      int              `json:"burst,omitempty"`      // concurrent: the writer sends this many more transactions without waiting
+	Owner      string               `json:"owner"`
+	Method     string               `json:"method"`
+	AfterTxn   int                  `json:"after_txn"` // established once this many transactions were issued
+	Tables     map[string]*MonTable `json:"tables"`
+	Concurrent bool                 `json:"concurrent,omitempty"` // issue while a transaction is in flight
+	Delay      int                  `json:"delay,omitempty"`      // concurrent: start the monitor this many scheduling steps after the transaction was sent
+	Burst      int                  `json:"burst,omitempty"`      // concurrent: the writer sends this many more transactions without waiting
 }
 
 type ClientSpec struct {
-	Name       string `json:"name"`
-	Reconnect  bool   `json:"reconnect"`
-	Inactivity int    `json:"inactivity_ms,omitempty"`
-	LeaderOnly bool   `json:"leader_only,omitempty"`
+	Name       string   `json:"name"`
+	Reconnect  bool     `json:"reconnect"`
+	Inactivity int      `json:"inactivity_ms,omitempty"`
+	LeaderOnly bool     `json:"leader_only,omitempty"`
 	Endpoints  []string `json:"endpoints,omitempty"`
-	Indexes    bool   `json:"indexes,omitempty"`
+	Indexes    bool     `json:"indexes,omitempty"`
 }
 
 type FaultSpec struct {
-	Kind  string `json:"kind"`
-	Link  string `json:"link,omitempty"`  // logical: owner name, or endpoint
-	Dir   int    `json:"dir,omitempty"`
-	Frame int    `json:"frame,omitempty"` // frame ordinal on that link/direction
-	Bytes int    `json:"bytes,omitempty"` // torn frame: bytes delivered before the cut
-	AfterTxn int `json:"after_txn,omitempty"`
-	Ms    int    `json:"ms,omitempty"`
-	N     int    `json:"n,omitempty"`
+	Kind     string `json:"kind"`
+	Link     string `json:"link,omitempty"` // logical: owner name, or endpoint
+	Dir      int    `json:"dir,omitempty"`
+	Frame    int    `json:"frame,omitempty"` // frame ordinal on that link/direction
+	Bytes    int    `json:"bytes,omitempty"` // torn frame: bytes delivered before the cut
+	AfterTxn int    `json:"after_txn,omitempty"`
+	Ms       int    `json:"ms,omitempty"`
+	N        int    `json:"n,omitempty"`
 }
 
 func (c *RunCfg) Knob(name string, def int) int {
